@@ -73,6 +73,10 @@ def gen_engine_case(rng, tier, **kw):
             if nd.get("seeded"):
                 for d in G.all_deps(nd):
                     g["nodes"][d]["seeded"] = False
+    if any(nd.get("seeded") for nd in g["nodes"]) and rng.random() < 0.5:
+        # the same components evaluated once more in the same process, now on an ordinary fresh broker without any
+        # pre-seeded value (the next archive of a service, the next test of a suite)
+        case["rerun_without_seeds"] = True
     if kw.get("host_share") and rng.random() < kw["host_share"]:
         case["host"] = True               # a HostContext in the broker: datasources arm their timeout alarm
     return case
@@ -109,11 +113,15 @@ def second_phase(r1):
     for i, j in case.get("late_deps", []):
         dr.add_dependency(b.comps[i], b.comps[j])
         spec["nodes"][i].setdefault("late_deps", []).append(j)
+    if case.get("rerun_without_seeds"):
+        for nd in spec["nodes"]:
+            nd["seeded"] = False
+        case = dict(case, serialized=False, none_seeds=False)
     return execute(case, built=b, spec=spec)
 
 
 def has_second_phase(case):
-    return bool(case.get("late_impls") or case.get("late_deps"))
+    return bool(case.get("late_impls") or case.get("late_deps") or case.get("rerun_without_seeds"))
 
 
 def execute(case, sleep=None, built=None, spec=None):
